@@ -270,6 +270,7 @@ def check_canary_path(path, tag):
 
 def replay_case(case):
     install_canary()
+    env.cap_memory()
     k = case["kind"]
     if k == "expr":
         return check_expr(case["expr"], case.get("features", ()))[0]
@@ -434,6 +435,7 @@ def shard(k, seed, tier, examples=500, engine_cases=10):
     from hypothesis import given, settings, HealthCheck, Phase, strategies as st
     from ..gen import intrinsics as gi
     install_canary()
+    env.cap_memory()        # an expression that asks for an enormous array must fail, not exhaust the machine (finding F112)
     camp = Campaign(PID, rule=RULE, tier=tier, seed=seed)
     depth = 3 if tier == "thorough" else 2
     hs_exprs = []
@@ -651,7 +653,7 @@ FUZZ_DICT = ["States.", "Format", "Array", "ArrayPartition", "ArrayContains", "A
 def fuzz_setup():
     repo()
     install_canary()
-    return {"dict": FUZZ_DICT, "corpus": FUZZ_SEEDS, "max_len": 160}
+    return {"dict": FUZZ_DICT, "corpus": FUZZ_SEEDS + ["States.ArrayRange(1, 1000, 1)", "States.ArrayRange(0, 1000000, 1000)"], "max_len": 160, "memory_cap_gib": 3.0}
 
 
 def fuzz_one(data):
